@@ -257,9 +257,10 @@ def bounded(tier, seed):
         spec = H.file_specs(tier, seed)[0]
         paths = []
         files = []
-        for j in range(3):
+        # names whose ALPHABETICAL order differs from the argument order (unpadded numbering, a deliberate reversal)
+        for j, nm in enumerate(('piece_9.nc', 'piece_10.nc', 'a_last.nc')):
             g = H.make_file(P, dict(spec, seed=70 + j))
-            p = os.path.join(tmp, 'part%d.nc' % j)
+            p = os.path.join(tmp, nm)
             g.save(p, format='NETCDF4_CLASSIC', verbose=0).close()
             paths.append(p)
             files.append(g)
@@ -275,7 +276,21 @@ def bounded(tier, seed):
                     if e:
                         return 'pncmfopen variable %s: %s' % (vk, e)
             return None
-        run.case('C04:pncmfopen delegates to stack in argument order', tuple(paths), t_mf)
+        run.case('C04:pncmfopen delegates to stack in argument order', tuple(os.path.basename(p) for p in paths), t_mf)
+
+        def t_mfd():
+            # open_mfdataset is a classmethod of the READER class (cls(path) opens each file)
+            from PseudoNetCDF.core._files import netcdf
+            m = netcdf.open_mfdataset(*paths, stackdim='t')
+            for vk, v in files[0].variables.items():
+                if 't' in v.dimensions:
+                    ax = list(v.dimensions).index('t')
+                    exp = np.ma.concatenate([x.variables[vk][...] for x in files], axis=ax)
+                    e = H.arr_equal(m.variables[vk][...], exp)
+                    if e:
+                        return 'open_mfdataset variable %s: %s' % (vk, e)
+            return None
+        run.case('C04:open_mfdataset stacks in argument order', tuple(os.path.basename(p) for p in paths), t_mfd)
     finally:
         shutil.rmtree(tmp, ignore_errors=True)
     return run.result(
